@@ -1159,6 +1159,14 @@ class Parser:
             regex_token = self.lexer.read_regex_literal()
             self.current = self.lexer.next_token()  # Move past the regex
             pattern, flags = regex_token.value
+            # A malformed pattern is an early error of the program, like any
+            # other malformed literal
+            from .regex.regex import RegExp as _RegExp
+
+            try:
+                _RegExp(pattern, flags)
+            except Exception as e:
+                raise self._error(f"Invalid regular expression: /{pattern}/: {e}")
             return RegexLiteral(pattern, flags)
 
         raise self._error(f"Unexpected token: {self.current.type.name}")
